@@ -279,7 +279,8 @@ def clenshaw_qbfs_der(cs, usq, j=1, alphas=None):
     alphas = _initialize_alphas(cs, usq, alphas, j=j)
     # seed with j=0 (S, not its derivative)
     clenshaw_qbfs(cs, usq, alphas[0])
-    for jj in range(1, j+1):
+    # a sum of degree M has no derivative beyond the M-th, those rows stay zero
+    for jj in range(1, min(j, M)+1):
         alphas[jj][M-jj] = -4 * jj * alphas[jj-1][M-jj+1]
         for n in range(M-2, -1, -1):
             # this is hideous, and just expresses:
@@ -1079,7 +1080,8 @@ def clenshaw_q2d_der(cns, m, usq, j=1, alphas=None):
     # a^j = j B_n * a_n+1^j+1 + (A_n + B_n x) A_n+1^j - C_n+1 a_n+2^j
     #
     # return alphas
-    for jj in range(1, j+1):
+    # a sum of degree N has no derivative beyond the N-th, those rows stay zero
+    for jj in range(1, min(j, N)+1):
         _, b, _ = abc_q2d_clenshaw(N-jj, m)
         alphas[jj][N-jj] = jj * b * alphas[jj-1][N-jj+1]
         for n in range(N-jj-1, -1, -1):
